@@ -5,6 +5,7 @@
   in the sense of the index-map model (C16).
 -/
 import Proofs.C12
+import Proofs.Lemmas.CyclesSlices
 import Proofs.Lemmas.MapsCycles
 import Proofs.Lemmas.ContainerRun
 
@@ -47,75 +48,12 @@ theorem nLabels_paint {α : Type} (w : α → α → Bool) (acc : List α → Bo
 
 /-! ### the container's partition is the public `get_cycle_vector(phase, return_good=False)` -/
 
-section
-variable {α β : Type}
-
-theorem runsBy_map (w : β → β → Bool) (f : α → β) (xs : List α) :
-    runsBy w (xs.map f) = (runsBy (fun a b => w (f a) (f b)) xs).map (List.map f) := by
-  induction xs with
-  | nil => rfl
-  | cons a t ih =>
-    cases t with
-    | nil => rfl
-    | cons b t =>
-      simp only [List.map_cons] at ih ⊢
-      simp only [runsBy]
-      split
-      · simp [ih]
-      · rw [ih]
-        cases runsBy (fun a b => w (f a) (f b)) (b :: t) <;> simp
-
-theorem paint_labelRuns_map (f : α → β) (acc : List α → Bool) (acc' : List β → Bool) (rs : List (List α))
-    (h : ∀ r ∈ rs, acc' (r.map f) = acc r) : ∀ c,
-    paint (labelRuns acc' c (rs.map (List.map f))) = paint (labelRuns acc c rs) := by
-  induction rs with
-  | nil => intro c; rfl
-  | cons r t ih =>
-    intro c
-    have hr := h r (by simp)
-    have ht : ∀ r ∈ t, acc' (r.map f) = acc r := fun r hr => h r (by simp [hr])
-    simp only [List.map_cons, labelRuns, hr]
-    split <;> simp [paint_cons, ih ht]
-
-theorem paint_cvSegs_map (w : β → β → Bool) (f : α → β) (acc : List α → Bool) (acc' : List β → Bool) (xs : List α)
-    (h : ∀ r ∈ runsBy (fun a b => w (f a) (f b)) xs, acc' (r.map f) = acc r) :
-    paint (cvSegs w acc' (xs.map f)) = paint (cvSegs (fun a b => w (f a) (f b)) acc xs) := by
-  unfold cvSegs
-  simp only [runsBy_map, List.length_map]
-  split
-  · simp [paint, List.flatMap_map]
-  · exact paint_labelRuns_map f acc acc' _ h 0
-
-end
-
-theorem zip_replicate_map_fst (ph : List Rat) : (ph.zip (List.replicate ph.length true)).map (·.1) = ph := by
-  induction ph with
-  | nil => rfl
-  | cons a t ih => simp [List.replicate_succ, ih]
-
 /-- **The container's label vector is `get_cycle_vector` with all cycles requested and no mask**
     (model of C12: `getCycleVector g step false phase (all-true mask)`). -/
 theorem getCycleVector_all (g : GoodCfg) (step : Rat) (ph : List Rat) :
     getCycleVector g step false ph (List.replicate ph.length true)
       = paint (cvSegs (wrapAt step) (fun _ => true) ph) := by
-  unfold getCycleVector
-  have hm := zip_replicate_map_fst ph
-  have key := paint_cvSegs_map (wrapAt step) (fun (q : Rat × Bool) => q.1) (accept g false) (fun _ => true)
-    (ph.zip (List.replicate ph.length true)) (by
-      intro r hr
-      have hsub : ∀ q ∈ r, q ∈ ph.zip (List.replicate ph.length true) := by
-        intro q hq
-        have : q ∈ (runsBy (fun a b => wrapAt step a.1 b.1) (ph.zip (List.replicate ph.length true))).flatten :=
-          List.mem_flatten.mpr ⟨r, hr, hq⟩
-        rwa [runsBy_flatten] at this
-      simp only [accept, Bool.not_false, Bool.true_or, Bool.and_true]
-      symm
-      rw [List.all_eq_true]
-      intro q hq
-      have := (List.of_mem_zip (hsub q hq)).2
-      exact (List.mem_replicate.mp this).2)
-  rw [hm] at key
-  exact key.symm
+  rw [getCycleVector_nomask]; rfl
 
 /-! ### the container's `is_good` metric is C13's per-cycle quality flag (`Cycles.containerIsGood`) -/
 
